@@ -1062,26 +1062,49 @@ def _c12_case(xml, ev):
 # ---------------------------------------------------------------------------------------------
 # C13: concurrent producers (Queue.tla / TraceC13.tla)
 # ---------------------------------------------------------------------------------------------
-def run_scen_jobs(jobs, wd, name="scen", threads=4, timeout=1800):
+def run_scen_jobs(jobs, wd, name="scen", threads=4, timeout=1800, isolate=False):
+    """isolate: if the harness process dies (abort / resource exhaustion caused by the code under test), every job is run
+    again in a process of its own; a job whose process dies again gets the result {"died": rc, "tail": ..}"""
     import subprocess
     for j in jobs:
         d = os.path.join(wd, "scen%s" % j["id"])
         os.makedirs(d, exist_ok=True)
         j["dir"] = d
-    jf = os.path.join(wd, name + ".ndjson")
-    of = os.path.join(wd, name + ".out.ndjson")
-    with open(jf, "w") as f:
-        for j in jobs:
-            f.write(json.dumps(j) + "\n")
+
+    def limit():
+        import resource
+        resource.setrlimit(resource.RLIMIT_AS, (24 << 30, 24 << 30))
+
+    def run(batch, nm, thr, tmo):
+        jf = os.path.join(wd, nm + ".ndjson")
+        of = os.path.join(wd, nm + ".out.ndjson")
+        with open(jf, "w") as f:
+            for j in batch:
+                f.write(json.dumps(j) + "\n")
+        p = subprocess.run(["timeout", str(tmo), vlib.VH, "scen", jf, of, str(thr)], stdout=subprocess.PIPE,
+                           stderr=subprocess.STDOUT, text=True, errors="replace", preexec_fn=limit)
+        got = {}
+        if os.path.exists(of):
+            for line in open(of):
+                try:
+                    r = json.loads(line)
+                    got[r["id"]] = r
+                except Exception:
+                    pass
+        return p.returncode, p.stdout[-500:], got
+
     t0 = time.time()
-    p = subprocess.run(["timeout", str(timeout), vlib.VH, "scen", jf, of, str(threads)], stdout=subprocess.PIPE,
-                       stderr=subprocess.STDOUT, text=True)
-    if p.returncode != 0:
-        raise ToolError("vh scen failed rc=%d %s" % (p.returncode, p.stdout[-500:]))
-    res = {}
-    for line in open(of):
-        r = json.loads(line)
-        res[r["id"]] = r
+    rc_, tail, res = run(jobs, name, threads, timeout)
+    if rc_ != 0:
+        if not isolate or rc_ == 124:
+            raise ToolError("vh scen failed rc=%d %s" % (rc_, tail))
+        res = {}
+        for j in jobs:
+            rc1, tail1, got = run([j], "%s.iso%s" % (name, j["id"]), 1, 120)
+            if rc1 == 0 and j["id"] in got:
+                res[j["id"]] = got[j["id"]]
+            else:
+                res[j["id"]] = {"id": j["id"], "died": rc1, "tail": tail1, "sessions": [], "names": []}
     log("[harness] scen: %d scenarios in %.1fs" % (len(jobs), time.time() - t0))
     return res
 
@@ -1434,7 +1457,7 @@ def c14_docs(dm):
                                             '</onentry><transition event="stop" target="f"/></state><final id="f"/></scxml>'
     recv = "<script>mark('recv', _event.name, _event.invokeid)</script>"
     pdoc = (hdr % (dm, "P")) + '<datamodel><data id="x" expr="0"/></datamodel>' \
-        '<state id="s0"><transition event="go" target="sA"/><transition event="tr" target="sT"/><transition event="*">' + recv + '</transition></state>' \
+        '<state id="s0"><transition event="go" target="sA"/><transition event="tr" target="sT"/><transition event="err" target="sE"/><transition event="*">' + recv + '</transition></state>' \
         '<state id="sT"><invoke type="scxml" id="kidT"><content>' + plain("CT") + '</content></invoke>' \
         '<transition target="sB"/></state>' \
         '<state id="sA">' \
@@ -1446,13 +1469,20 @@ def c14_docs(dm):
         '<transition event="finish"><send target="#_kid" event="fin"/></transition>' \
         '<transition event="*">' + recv + '</transition></state>' \
         '<state id="sB"><invoke type="scxml" id="kidB"><content>' + plain("C3") + '</content></invoke>' \
+        '<transition event="back" target="s0"/><transition event="*">' + recv + '</transition></state>' \
+        '<state id="sE"><invoke type="scxml" id="kidE"><param name="a" expr="nosuchvar_c14"/><content>' + plain("CE") + '</content></invoke>' \
+        '<invoke type="scxml" id="kidE2"><content>' + plain("CE2") + '</content></invoke>' \
+        '<transition event="error.execution"><script>mark(\'err\', _event.name)</script></transition>' \
         '<transition event="back" target="s0"/><transition event="*">' + recv + '</transition></state></scxml>'
-    inv = [{"state": "sT", "child": "CT", "id": "kidT", "fwd": False, "fin": False},
+    inv = [{"state": "sE", "child": "CE", "id": "kidE", "fwd": False, "fin": False, "opt": True},
+           {"state": "sE", "child": "CE2", "id": "kidE2", "fwd": False, "fin": False},
+           {"state": "sT", "child": "CT", "id": "kidT", "fwd": False, "fin": False},
            {"state": "sA", "child": "C1", "id": "kid", "fwd": False, "fin": True, "direct": ["ping", "fin"]},
            {"state": "sA", "child": "C2", "id": "kidf", "fwd": True, "fin": False},
            {"state": "sB", "child": "C3", "id": "kidB", "fwd": False, "fin": False}]
     for x in inv:
         x.setdefault("direct", [])
+        x.setdefault("opt", False)
     return pdoc, inv
 
 
@@ -1475,6 +1505,7 @@ def c14(tier, seed):
         "finish-then-events": ["go", S, "finish", S, "ext1", "ext2", "leave", S],
         "cancel-with-traffic": ["go", S, "ping", "ping", "ping", "leave", "ext1", S],
         "forwarded-stop": ["go", S, "ext1", "stop", S, "ext2", "leave", S],
+        "failing-invoke-argument": ["err", S, "ext1", S, "back", S, "err", "ext2", "back", S],
         "forwarded-stop-rapid": ["go", "ext1", "stop", "ext2", "leave", "go", S, "leave", S],
     }
     jobs = []
@@ -1496,7 +1527,21 @@ def c14(tier, seed):
                     job["options"] = {"ecma:strict": ""}
                 jobs.append(job)
                 meta[jid] = (name, dm, inv)
-    res = run_scen_jobs(jobs, wd, threads=4)
+    res = run_scen_jobs(jobs, wd, threads=4, isolate=True)
+    if any(res[j["id"]].get("errors") for j in jobs):
+        # a scenario that exhausts the process (threads, memory) spoils its neighbours: every scenario again, alone
+        for j in jobs:
+            res.update(run_scen_jobs([j], wd, name="alone%s" % j["id"], threads=1, timeout=200, isolate=True))
+    for j in list(jobs):
+        errs = " ".join(str(e) for e in (res[j["id"]].get("errors") or []))
+        if res[j["id"]].get("died") is None and ("Resource temporarily unavailable" in errs or "deadline" in errs):
+            res[j["id"]]["died"] = "resources"
+            res[j["id"]]["tail"] = errs
+        if res[j["id"]].get("died") is not None:
+            name, dm, inv = meta[j["id"]]
+            V.report("process-died:%s" % name, "the process running scenario %s (%s) died (rc %s): %s" % (name, dm, res[j["id"]]["died"], res[j["id"]]["tail"][-200:]),
+                     {"scenario": name, "rc": res[j["id"]]["died"], "tail": res[j["id"]]["tail"]})
+            jobs.remove(j)
     # a scenario in which some session log is still open at the end (a child's thread that did not get the CPU in time on a
     # loaded machine - or a child that really never ends) is run again on its own; only the repeated outcome is judged
     again = [j for j in jobs if any(not sl["ended"] for sl in res[j["id"]]["sessions"]) and not res[j["id"]].get("stalls")]
@@ -1583,7 +1628,7 @@ def c14(tier, seed):
            "samples": [{"scenario": meta[scens[0]["jid"]][0], "parent_records": [[x["k"], x["a"], x["b"]] for x in scens[0]["p"][:25]]}],
            "evaluations": len(scens), "distinct_nontrivial": sum(len(sc["kids"]) for sc in scens),
            "rule": "Invoke.tla model-checked (all orders of child events, completion and cancellation; InvokeOncePerStableEntry, "
-                   "NothingAfterCancel, DoneInvokeOnceAndLast); %d recorded parent/child scenarios (9 scripts incl. transient state, "
+                   "NothingAfterCancel, DoneInvokeOnceAndLast); %d recorded parent/child scenarios (10 scripts incl. transient state, "
                    "re-entry, rapid enter/leave, finish racing leave, cancellation under traffic) validated by TraceC14.tla; "
                    "non-trivial = child sessions started" % len(scens)}
     vlib.write_evidence("C14", tier, seed, "model_checking", cov, time.time() - t0, len(V.violations),
@@ -2058,24 +2103,29 @@ def c20(tier, seed):
 # ---------------------------------------------------------------------------------------------
 # C17: lock order / progress (Locks.tla; programs = observed critical sections; predicted cycles confirmed by steering)
 # ---------------------------------------------------------------------------------------------
-def c17_doc(name, dm="rfsm-expression", ticks=30, child_ticks=6, tick_ms=2):
+def c17_doc(name, dm="rfsm-expression", ticks=30, child_ticks=6, tick_ms=2, want_child=False):
     hdr = '<scxml xmlns="http://www.w3.org/2005/07/scxml" version="1.0" datamodel="%s" name="%s">'
     child = (hdr % (dm, name + "kid")) + '<datamodel><data id="n" expr="0"/></datamodel><state id="c">' \
         '<onentry><send target="#_parent" event="hello"/><send event="ctick" delay="%dms"/></onentry>' % tick_ms + \
         '<transition event="ctick" cond="n &lt; %d"><assign location="n" expr="n + 1"/><send event="ctick" delay="%dms"/>' % (child_ticks, tick_ms) + \
         '<send target="#_parent" event="fromkid"/></transition>' \
         '<transition event="stop" target="f"/></state><final id="f"/></scxml>'
+    if want_child:
+        return child
     return (hdr % (dm, name)) + '<datamodel><data id="peer" expr="0"/><data id="n" expr="0"/></datamodel>' \
-        '<state id="run"><onentry><send event="tick" delay="%dms" id="tk"/></onentry>' % tick_ms + \
+        '<state id="run"><onentry><send event="tick" delay="%dms" id="tk"/>' % tick_ms + \
+        "".join('<send event="tock" delay="%dms"%s/>' % (d_, ' id="tk%d"' % d_ if d_ % 3 == 0 else "") for d_ in range(3, 150, 2)) + '</onentry>' \
         '<transition event="init"><assign location="peer" expr="_event.data.peer"/></transition>' \
         '<transition event="tick" cond="n &lt; %d"><assign location="n" expr="n + 1"/><send event="tick" delay="%dms" id="tk"/>' % (ticks, tick_ms) + \
         '<send event="ping" targetexpr="\'#_scxml_\' + peer"/></transition>' \
         '<transition event="more"><assign location="n" expr="0"/><send event="tick" delay="%dms" id="tk"/></transition>' % tick_ms + \
-        '<transition event="ping"/><transition event="hello"/><transition event="fromkid"/>' \
+        '<transition event="ping"/><transition event="hello"/><transition event="fromkid"/><transition event="tock"/>' \
         '<transition event="kidstop"><send target="#_kid" event="stop"/></transition>' \
         '<transition event="quit" target="fin"/>' \
-        '<state id="idle"><transition event="go" target="busy"/></state>' \
+        '<state id="idle"><transition event="go" target="busy"/><transition event="go2" target="busy2"/></state>' \
         '<state id="busy"><invoke type="scxml" id="kid"><content>' + child + '</content></invoke>' \
+        '<transition event="leave" target="idle"/><transition event="done.invoke.kid" target="idle"/></state>' \
+        '<state id="busy2"><invoke type="scxml" id="kid" src="c17kid.scxml"/>' \
         '<transition event="leave" target="idle"/><transition event="done.invoke.kid" target="idle"/></state>' \
         '</state><final id="fin"/></scxml>'
 
@@ -2093,7 +2143,7 @@ def c17_scenarios(tier, rng):
     sc = []
     sc.append(("invoke-with-timers", [("A", A), ("B", B)],
                [{"start": "A"}, {"start": "B"}] + init(["A", "B"]) +
-               [{"threads": [cyc("A", ["go", "leave"], 4, 1500), cyc("B", ["go", "kidstop", "more"], 3, 2500)]}, {"settle": 60}]))
+               [{"threads": [cyc("A", ["go", "leave", "go2", "leave"], 3, 1500), cyc("B", ["go", "kidstop", "more", "go2", "kidstop"], 2, 2500)]}, {"settle": 60}]))
     sc.append(("start-while-sending", [("A", A), ("B", B), ("C", C)],
                [{"start": "A"}, {"start": "B"}] + init(["A", "B"]) +
                [{"threads": [cyc("A", ["go", "leave", "more"], 3, 2000), [{"sleep_us": 3000}, {"start": "C"}] + init(["C", "A"])[:1] + cyc("C", ["go", "leave"], 2, 2000)]},
@@ -2194,7 +2244,8 @@ def c17(tier, seed):
 
     def job_for(k, points=None):
         name, sessions, steps = scs[k]
-        j = {"id": 1, "sessions": [{"name": n, "xml": x} for n, x in sessions], "steps": steps, "timeout_ms": 8000, "locks": True}
+        j = {"id": 1, "sessions": [{"name": n, "xml": x} for n, x in sessions], "steps": steps, "timeout_ms": 8000, "locks": True,
+             "files": {"c17kid.scxml": c17_doc("F", want_child=True)}}
         if points:
             j["points"] = points
         return j
@@ -2290,7 +2341,7 @@ def c17(tier, seed):
                            "holds": C17_CLASSNAME.get(prev["wants_class"], prev["wants_class"]),
                            "wants": C17_CLASSNAME.get(m["wants_class"], m["wants_class"])})
         hit = None
-        tries = 3 if tier == "quick" else 8
+        tries = 4 if tier == "quick" else 10
         for a in range(tries):
             res = run_scen_jobs([job_for(c["k"], points)], wd, name="conf%d" % a, threads=1, timeout=120)
             r = res[1]
@@ -2562,11 +2613,65 @@ def c10(tier, seed):
                  {"text": t, "variant": vn, "expected": e, "path": bad[0], "got": bad[1], "all": r})
     if ok == 0:
         raise ToolError("C10: nothing agreed")
+    # ---- store family: variables, member / index access, '=' and '?=' (Store.tla)
+    sres = vlib.run_tlc("Store", "Store.cfg", wd, timeout=900, workers=4)
+    states += sres["distinct"]
+    trans += sres["states"]
+    progs = []
+    for tup in vlib.tlc_tuples(sres["text"], "PROG"):
+        v = vlib.parse_tla_value(tup)
+        progs.append((v[1], v[2]))
+    sres["text"] = ""
+    if tier == "quick":
+        progs = [p_ for k_, p_ in enumerate(sorted(progs)) if k_ % 3 == seed % 3 or " ; " not in p_[0]]
+    sjobs = [{"id": k_ + 1, "text": p_[0], "store": True} for k_, p_ in enumerate(progs)]
+    sresults, sdied = run_expr_jobs(sjobs, wd, name="store")
+    VARS = ["arr", "m", "n", "ro", "s", "t", "u"]
+    store_ok = 0
+    store_judged = 0
+    for k_, (text, outcomes) in enumerate(progs):
+        r = sresults.get(k_ + 1)
+        if r is None or r.get("panic") or r.get("hang"):
+            V.report("novalue:store", "no value for %r" % text, {"text": text, "result": r})
+            continue
+        dump = [r["store"].get(vn, "-") for vn in VARS]
+        extra = sorted(set(r["store"]) - set(VARS))
+        fits = False
+        for (res_e, st_e) in outcomes:
+            try:
+                res_okay = res_e == "U" or enc_equal(enc_parse(res_e), enc_parse(r["a"]))
+                st_okay = all((e_ == "-" and g_ == "-") or (e_ != "-" and g_ != "-" and enc_equal(enc_parse(e_), enc_parse(g_)))
+                              for e_, g_ in zip(st_e, dump))
+            except Exception:
+                res_okay = st_okay = False
+            if res_okay and st_okay:
+                fits = True
+                break
+        if all(o[0] == "U" for o in outcomes) and len(outcomes) > 1:
+            pass
+        store_judged += 1
+        # (the datamodel refuses to return collections; for those only the parser path is compared)
+        if fits and not extra and (r["a"] == r["b1"] or r["a"][:1] in "[{"):
+            store_ok += 1
+            continue
+        what = "extra-variable" if extra else "path:b1" if fits else "store"
+        first = text.split(" ; ")[0]
+        kind = "init" if "?=" in first else "assign" if " = " in first else "read"
+        V.report("store:%s:%s" % (what, kind), "program %r: engine gave %s with store %s; allowed: %s" % (text, r["a"], dict(zip(VARS, dump)), outcomes[:3]),
+                 {"text": text, "result": r["a"], "b1": r["b1"], "store": r["store"], "allowed": outcomes})
+    log("[C10] store family: %d programs, %d comply" % (store_judged, store_ok))
+    if store_ok == 0:
+        raise ToolError("C10: no store program complied")
+    ok += store_ok
     rc = V.finish()
     cov = {"states": states, "transitions": trans, "traces_validated_against_impl": ok,
+           "store_programs": store_judged,
            "samples": [{"text": t, "expected": e} for (f, t, e) in judged[:: max(1, len(judged) // 5)][:5]],
-           "evaluations": len(jobs), "distinct_nontrivial": len(nontrivial),
-           "rule": "TLC enumerates every expression operand (op operand)^K with one optional parenthesised sub-range and "
+           "evaluations": len(jobs) + len(sjobs), "distinct_nontrivial": len(nontrivial),
+           "rule": "Store.tla enumerates programs (statement [; statement] [; read]) over a fixed store with member / index reads, "
+                   "'=' and '?=' on declared, undeclared, read-only variables, members and elements and gives the set of allowed "
+                   "(result, store) outcomes; the engine's result and store dump must be one of them, identical for a fresh compile. "
+                   "TLC enumerates every expression operand (op operand)^K with one optional parenthesised sub-range and "
                    "optional '!' over the operand/operator sets of each family and computes the value with Expr.tla; the "
                    "engine evaluates the text (parser directly, datamodel compile, datamodel cache hit; whitespace and "
                    "redundant-parenthesis variants); non-trivial = distinct agreeing expressions with >= 2 operators",
